@@ -645,6 +645,11 @@ func (s *Server) handleRequest(req *dhcpv4.DHCPv4) (*dhcpv4.DHCPv4, error) {
 		} else if !pool.Contains(requestedIP) {
 			atomic.AddUint64(&s.naksTotal, 1)
 			return s.buildNAK(req, "IP not in pool")
+		} else if !pool.Claim(mac, requestedIP) {
+			// The address is held by (or offered to) another client, is not an
+			// allocatable address, or is not the one this client was offered.
+			atomic.AddUint64(&s.naksTotal, 1)
+			return s.buildNAK(req, "IP not available")
 		}
 	}
 
